@@ -12,7 +12,7 @@ from gv.model import dbutil, grammar as G
 ID = "C17"
 RULE = ("part 'set': feature source {parsed, database} x setter {Feature[k]=, attributes[k]=, update, setdefault} x value (8 shapes incl. "
         "scalar, empty list, non-ASCII, reserved characters) x existing/new key x always_return_list; part 'json': every mapping with 1..3 keys "
-        "over the value shapes; part 'merge': all ordered pairs of 49 mappings x numeric_sort x container kind x switch; part 'eq': all pairs "
+        "over the value shapes; part 'merge': all ordered pairs of 81 mappings x numeric_sort x container kind x switch; part 'eq': all pairs "
         "of a 24-feature set. Non-trivial = a scalar or single-item or non-ASCII value is involved (set/json), both arguments share a key "
         "(merge), the two features differ in exactly one column or attribute (eq)")
 ASSUMPTIONS = [
@@ -24,7 +24,7 @@ VALUES = [[], ["a"], ["ab"], ["a", "b"], ["é"], [" ", "%"], "x", ["U v", "w;=
 SETTERS = ("feature_setitem", "attributes_setitem", "update", "setdefault")
 LINE = "c1\ts\tgene\t5\t9\t.\t+\t.\tID=abc;Name=n1,n2;tag=t"
 
-MVALS = [None, [], ["a"], ["b", "a"], ["10", "9"], ["2", "x"], ["1.5", "10"]]
+MVALS = [None, [], ["a"], ["b", "a"], ["10", "9"], ["2", "x"], ["1.5", "10"], ["5.0", "5"], ["1e1", "007", "7"]]
 
 
 def bounds(tier):
